@@ -7,6 +7,7 @@ type, complement), an independent reference kappa of the recoded pattern, the
 Omega string, and rejection of any group holding a non-amino-acid."""
 from .. import gen
 from .. import refmodel as M
+from .. import salt as SALT
 
 ID = "C06"
 LEVEL = "exploration"
@@ -116,6 +117,8 @@ def judge(case, rep, S):
         if sty:
             obj.set_phosphosites(rng.sample(sty, min(len(sty), rng.randint(1, 4))))
             rep.cnt("objects_with_phosphosites")
+    if rng.random() < 0.25:
+        SALT.salt(S, obj, seq, rng, rep, cheap=len(seq) > 100)
     # --- Omega identities
     om = obj.get_Omega()
     rec = "".join("E" if c in "PEDKR" else "K" for c in seq)
